@@ -31,6 +31,7 @@ import (
 	texttemplate "text/template"
 
 	"github.com/AliceO2Group/Control/common/gera"
+	"github.com/AliceO2Group/Control/common/verifhook"
 
 	"github.com/AliceO2Group/Control/common/event"
 	"github.com/AliceO2Group/Control/common/event/topic"
@@ -276,6 +277,7 @@ func (r *aggregatorRole) updateStatus(s task.Status) {
 	if r == nil {
 		return
 	}
+	verifhook.Point("role.enter", "node", r.Name, "kind", "status", "v", int(s))
 	oldStatus := r.status.get()
 	log.WithFields(logrus.Fields{
 		"child status":      s.String(),
@@ -296,6 +298,7 @@ func (r *aggregatorRole) updateStatus(s task.Status) {
 		})
 	}
 	r.SendEvent(&event.RoleEvent{Name: r.Name, Status: r.status.get().String(), RolePath: r.GetPath()})
+	verifhook.Point("role.merged", "node", r.Name, "kind", "status", "v", int(r.status.get()))
 	if r.parent != nil {
 		r.parent.updateStatus(r.status.get())
 	}
@@ -305,6 +308,7 @@ func (r *aggregatorRole) updateState(s sm.State) {
 	if r == nil {
 		return
 	}
+	verifhook.Point("role.enter", "node", r.Name, "kind", "state", "v", int(s))
 	oldState := r.state.get()
 	r.state.merge(s, r)
 	log.WithField("role", r.Name).
@@ -320,6 +324,7 @@ func (r *aggregatorRole) updateState(s sm.State) {
 		})
 	}
 	r.SendEvent(&event.RoleEvent{Name: r.Name, State: r.state.get().String(), RolePath: r.GetPath()})
+	verifhook.Point("role.merged", "node", r.Name, "kind", "state", "v", int(r.state.get()))
 	if r.parent != nil {
 		r.parent.updateState(r.state.get())
 	}
